@@ -136,6 +136,9 @@ def spec : List (String × String × String) := [
   ("charmm", "atmasses", "amu"),              -- CHARMM crd weighting column used as mass: amu
   ("molden", "atcoords", "au"),               -- Molden [Atoms] AU
   ("molden-angs", "atcoords", "angstrom"),    -- Molden [Atoms] Angs
+  ("molden-paren-au", "atcoords", "au"),         -- Molden format description: [Atoms] (AU)
+  ("molden-paren-angs", "atcoords", "angstrom"), -- Molden format description: [Atoms] (Angs)
+  ("molden-upper-angs", "atcoords", "angstrom"), -- upper-case spelling
   ("molekel", "atcoords", "angstrom"),        -- Molekel $COORD: Å
   ("mwfn", "atcoords", "angstrom"),           -- Multiwfn mwfn $Centers: Å
   ("wfn", "atcoords", "au"),                  -- AIM wfn: bohr
